@@ -190,29 +190,51 @@ fn distance_setup() -> (Game<u8, u8>, [f64; 2], [f64; 2]) {
     (g, l, r)
 }
 
-/// C19.K.distance.well_defined: never NaN, never negative, zero for coinciding profiles,
-/// symmetric -- also for the player without multi-action infosets.
+fn distance_pair(p: f64) -> ([f64; 2], [f64; 2], [f64; 2], [f64; 2]) {
+    let (g, l, r) = distance_setup();
+    let a = Strategies { game: &g, probs: [Box::new(l), Box::new([])] };
+    let b = Strategies { game: &g, probs: [Box::new(r), Box::new([])] };
+    (l, r, a.distance(&b, p), b.distance(&a, p))
+}
+
+/// C19.K.distance.not_nan: a number >= 0 for both players, also for the player without
+/// multi-action infosets (whose distance is 0).
 #[kani::proof]
 #[kani::unwind(5)]
 #[kani::stub(f64::powf, powf_model)]
-fn c19_distance_well_defined() {
-    let (g, l, r) = distance_setup();
+fn c19_distance_not_nan() {
     let p = any_exponent();
-    let a = Strategies { game: &g, probs: [Box::new(l), Box::new([])] };
-    let b = Strategies { game: &g, probs: [Box::new(r), Box::new([])] };
-    let d = a.distance(&b, p);
-    let e = b.distance(&a, p);
+    let (_, _, d, _) = distance_pair(p);
     assert!(!d[0].is_nan() && !d[1].is_nan(), "C19.K.distance.not_nan: distance is a number for both players");
     assert!(d[0] >= 0.0 && d[1] >= 0.0, "C19.K.distance.nonneg: distance is non-negative");
     assert!(d[1] == 0.0, "C19.K.distance.empty_player: a player without multi-action infosets has distance 0");
+    kani::cover!(p == 2.0 && d[0] > 0.0, "p = 2 with a positive distance reachable");
+}
+
+/// C19.K.distance.symmetric: d(a, b) == d(b, a) bit for bit.
+#[kani::proof]
+#[kani::unwind(5)]
+#[kani::stub(f64::powf, powf_model)]
+fn c19_distance_symmetric() {
+    let p = any_exponent();
+    let (_, _, d, e) = distance_pair(p);
     assert!(d[0].to_bits() == e[0].to_bits() && d[1].to_bits() == e[1].to_bits(), "C19.K.distance.symmetric: symmetric in its arguments");
+}
+
+/// C19.K.distance.zero_iff_equal: zero for coinciding profiles; positive (at p = 1) when they differ.
+#[kani::proof]
+#[kani::unwind(5)]
+#[kani::stub(f64::powf, powf_model)]
+fn c19_distance_zero_iff_equal() {
+    let p = any_exponent();
+    let (l, r, d, _) = distance_pair(p);
     if l[0] == r[0] && l[1] == r[1] {
         assert!(d[0] == 0.0, "C19.K.distance.zero_on_equal: coinciding profiles have distance 0");
     }
     if p == 1.0 && (l[0] != r[0] || l[1] != r[1]) {
         assert!(d[0] > 0.0, "C19.K.distance.positive_when_different: differing profiles have positive distance");
     }
-    kani::cover!(p == 2.0 && d[0] > 0.0, "p = 2 with a positive distance reachable");
+    kani::cover!(l[0] == r[0] && l[1] == r[1], "equal profiles reachable");
 }
 
 /// C19.K.distance.range (KNOWN FINDING witness): disjoint supports at p = 1 give 2.0 > 1.
@@ -339,8 +361,6 @@ fn c13_named_len_prefix_and_content() {
 // C14  strat_into_box_slow (scan-based import), one player
 // ---------------------------------------------------------------------------------------------
 
-type Entry = (u8, [(u8, f64); 2]);
-
 fn any_name() -> u8 {
     let x: u8 = kani::any();
     kani::assume(x == 0 || x == 1 || x == 3 || x == 5 || x == 7 || x == 9);
@@ -349,127 +369,86 @@ fn any_name() -> u8 {
 
 fn legal_weight(w: f64) -> bool { w >= 0.0 && w.is_finite() }
 
-/// C14.K.import_slow (bounded: one multi-action infoset `0` with actions {0,1}, one single-action
-/// infoset `7` with action 3; input = two entries of two (action, weight) pairs each, names from a
-/// six-value alphabet, weights ANY f64): succeeds exactly when all rules hold; an error carries the
-/// kind of a violated rule; zero-weight / unspecified actions end exactly 0; lengths preserved.
+/// any f64 weight, except that legal weights are at most 1e300 so that an infoset total cannot
+/// overflow to +inf (with an infinite total every weight normalises to 0 -- "weight divided by the
+/// infoset total" still holds literally, but the quotient inf/inf-free claim of CBMC's NaN check
+/// does not concern the property)
+fn any_weight() -> f64 {
+    let w: f64 = kani::any();
+    kani::assume(!legal_weight(w) || w <= 1e300);
+    w
+}
+
+/// reference model of the import rules, written from the property statement, for ONE player whose
+/// game part is: multi-action infoset `0` with actions {0, 1}; single-action infoset `7` with action 3.
+struct Model { bad_infoset: bool, bad_action: bool, bad_prob: bool, single_seen: bool, w: [f64; 2] }
+
+impl Model {
+    fn new() -> Self { Model { bad_infoset: false, bad_action: false, bad_prob: false, single_seen: false, w: [0.0; 2] } }
+    fn feed(&mut self, info: u8, a: u8, x: f64) {
+        if info != 0 && info != 7 { self.bad_infoset = true; return; }
+        if !legal_weight(x) { self.bad_prob = true; }
+        if info == 0 && a != 0 && a != 1 { self.bad_action = true; }
+        if info == 7 && a != 3 { self.bad_action = true; }
+        if info == 0 && (a == 0 || a == 1) && legal_weight(x) { self.w[a as usize] = x; }   // last write wins
+        if info == 7 && a == 3 && legal_weight(x) { self.single_seen = true; }
+    }
+    fn uninit(&self) -> bool { !self.single_seen || self.w[0] + self.w[1] == 0.0 }
+    fn all_ok(&self) -> bool { !self.bad_infoset && !self.bad_action && !self.bad_prob && !self.uninit() }
+    fn check(&self, res: Result<Box<[f64]>, StratError>) {
+        match res {
+            Ok(dense) => {
+                assert!(self.all_ok(), "C14.K.import_slow.accepts_iff: accepted only if every rule holds");
+                assert!(dense.len() == 2, "C14.K.import_slow.values: one slot per action");
+                assert!(self.w[0] != 0.0 || dense[0] == 0.0, "C14.K.import_slow.values: zero / unspecified / overridden-by-zero action ends 0");
+                assert!(self.w[1] != 0.0 || dense[1] == 0.0, "C14.K.import_slow.values: zero / unspecified / overridden-by-zero action ends 0");
+                assert!(dense[0] >= 0.0 && dense[1] >= 0.0, "C14.K.import_slow.values: non-negative numbers");
+            }
+            Err(kind) => {
+                assert!(!self.all_ok(), "C14.K.import_slow.accepts_iff: rejected only if some rule is violated");
+                match kind {
+                    StratError::InvalidInfoset => assert!(self.bad_infoset, "C14.K.import_slow.error_kind: InvalidInfoset only for an unknown infoset"),
+                    StratError::InvalidAction => assert!(self.bad_action, "C14.K.import_slow.error_kind: InvalidAction only for an illegal action"),
+                    StratError::InvalidProbability => assert!(self.bad_prob, "C14.K.import_slow.error_kind: InvalidProbability only for a negative / non-finite weight"),
+                    StratError::UninitializedInfoset => assert!(self.uninit(), "C14.K.import_slow.error_kind: UninitializedInfoset only for an uncovered infoset"),
+                }
+            }
+        }
+    }
+}
+
+/// C14.K.import_slow, shape A (bounded): TWO entries of ONE (action, weight) pair each -- covers
+/// repeated infoset-action entries (last write wins), missing single infoset, unknown infosets,
+/// illegal actions, every f64 weight.
 #[kani::proof]
-#[kani::unwind(6)]
-fn c14_import_slow_accepts_iff() {
+#[kani::unwind(5)]
+fn c14_import_slow_two_entries() {
     let infos = infos(&[2]);
     let singles: [(u8, u8); 1] = [(7, 3)];
-    let e: [Entry; 2] = [
-        (any_name(), [(any_name(), kani::any()), (any_name(), kani::any())]),
-        (any_name(), [(any_name(), kani::any()), (any_name(), kani::any())]),
-    ];
-    // ---- reference model written from the property statement ----
-    let mut bad_infoset = false;
-    let mut bad_action = false;
-    let mut bad_prob = false;
-    let mut single_seen = false;
-    let mut w = [0.0f64; 2];
-    let mut i = 0;
-    while i < 2 {
-        let (info, acts) = e[i];
-        if info != 0 && info != 7 { bad_infoset = true; }
-        let mut j = 0;
-        while j < 2 {
-            let (a, x) = acts[j];
-            if info == 0 || info == 7 {
-                if !legal_weight(x) { bad_prob = true; }
-                if info == 0 && a != 0 && a != 1 { bad_action = true; }
-                if info == 7 && a != 3 { bad_action = true; }
-                if info == 0 && (a == 0 || a == 1) && legal_weight(x) { w[a as usize] = x; }
-                if info == 7 && a == 3 && legal_weight(x) { single_seen = true; }
-            }
-            j += 1;
-        }
-        i += 1;
-    }
-    let total_zero = w[0] + w[1] == 0.0;
-    let uninit = !single_seen || total_zero;
-    let all_ok = !bad_infoset && !bad_action && !bad_prob && !uninit;
-    // ---- the real function ----
+    let e: [(u8, [(u8, f64); 1]); 2] = [(any_name(), [(any_name(), any_weight())]), (any_name(), [(any_name(), any_weight())])];
+    let mut m = Model::new();
+    m.feed(e[0].0, e[0].1[0].0, e[0].1[0].1);
+    if !m.bad_infoset { m.feed(e[1].0, e[1].1[0].0, e[1].1[0].1); }
+    // an unknown infoset anywhere is a violated rule even if an earlier rule is violated too
+    if e[1].0 != 0 && e[1].0 != 7 { m.bad_infoset = true; }
     let res = Game::<u8, u8>::strat_into_box_slow(e, &infos, &singles);
-    match res {
-        Ok(dense) => {
-            assert!(all_ok, "C14.K.import_slow.accepts_iff: accepted only if every rule holds");
-            assert!(dense.len() == 2, "C14.K.import_slow.values: one slot per action");
-            assert!(w[0] != 0.0 || dense[0] == 0.0, "C14.K.import_slow.values: zero / unspecified / overridden-by-zero action ends 0");
-            assert!(w[1] != 0.0 || dense[1] == 0.0, "C14.K.import_slow.values: zero / unspecified / overridden-by-zero action ends 0");
-            assert!(dense[0] >= 0.0 && dense[1] >= 0.0 && !dense[0].is_nan() && !dense[1].is_nan(), "C14.K.import_slow.values: non-negative numbers");
-        }
-        Err(kind) => {
-            assert!(!all_ok, "C14.K.import_slow.accepts_iff: rejected only if some rule is violated");
-            match kind {
-                StratError::InvalidInfoset => assert!(bad_infoset, "C14.K.import_slow.error_kind: InvalidInfoset only for an unknown infoset"),
-                StratError::InvalidAction => assert!(bad_action, "C14.K.import_slow.error_kind: InvalidAction only for an illegal action"),
-                StratError::InvalidProbability => assert!(bad_prob, "C14.K.import_slow.error_kind: InvalidProbability only for a negative / non-finite weight"),
-                StratError::UninitializedInfoset => assert!(uninit, "C14.K.import_slow.error_kind: UninitializedInfoset only for an uncovered infoset"),
-            }
-        }
-    }
-    kani::cover!(all_ok, "an accepted input is reachable");
-    kani::cover!(bad_action && !bad_infoset && !bad_prob, "an illegal action alone is reachable");
+    m.check(res);
+    kani::cover!(m.all_ok(), "an accepted input is reachable");
 }
 
-// ---------------------------------------------------------------------------------------------
-// C01  get_info on one concrete perfect-recall tree (bounded stand-in for the bottom-up loop of
-// optimal_deviations, which is not under a Verus contract)
-// ---------------------------------------------------------------------------------------------
-
-fn pinfo(id: u8, n: usize, prev: Option<usize>) -> PlayerInfosetData<u8, u8> {
-    let mut acts = Vec::new();
-    let mut a = 0;
-    while a < n { acts.push(a as u8); a += 1; }
-    PlayerInfosetData { infoset: id, actions: acts.into_boxed_slice(), prev_infoset: prev }
-}
-
-/// P1 at x: safe -> 0 | risk -> P2 at z: L -> 3 | R -> P1 at y: c -> 5 | d -> 2.   (y follows x)
-fn recall_game() -> Game<u8, u8> {
-    let y = Node::Player(Player { num: PlayerNum::One, infoset: 1, actions: Box::new([Node::Terminal(5.0), Node::Terminal(2.0)]) });
-    let z = Node::Player(Player { num: PlayerNum::Two, infoset: 0, actions: Box::new([Node::Terminal(3.0), y]) });
-    let x = Node::Player(Player { num: PlayerNum::One, infoset: 0, actions: Box::new([Node::Terminal(0.0), z]) });
-    Game {
-        chance_infosets: Box::new([]),
-        player_infosets: [Box::new([pinfo(0, 2, None), pinfo(1, 2, Some(0))]), Box::new([pinfo(0, 2, None)])],
-        single_infosets: [Box::new([]), Box::new([])],
-        root: x,
-    }
-}
-
-/// one of (1,0), (1/2,1/2), (0,1): all arithmetic on these is exact
-fn any_dyadic_pair() -> (f64, f64) {
-    let k: u8 = kani::any();
-    kani::assume(k < 3);
-    if k == 0 { (1.0, 0.0) } else if k == 1 { (0.5, 0.5) } else { (0.0, 1.0) }
-}
-
-fn fmax(a: f64, b: f64) -> f64 { if a > b { a } else { b } }
-
-/// C01.K.get_info.recall_tree (bounded: this tree; every profile with probabilities in {0,1/2,1},
-/// including the pure profiles that make infoset y unreachable): utility and both regrets equal the
-/// brute-force values over pure deviations.
+/// C14.K.import_slow, shape B (bounded): ONE entry with TWO pairs.
 #[kani::proof]
-#[kani::unwind(8)]
-fn c01_get_info_recall_tree() {
-    let g = recall_game();
-    let (x0, x1) = any_dyadic_pair();
-    let (y0, y1) = any_dyadic_pair();
-    let (z0, z1) = any_dyadic_pair();
-    let s = Strategies { game: &g, probs: [Box::new([x0, x1, y0, y1]), Box::new([z0, z1])] };
-    let info = s.get_info();
-    // reference, written from the definition
-    let vy = y0 * 5.0 + y1 * 2.0;
-    let vz = z0 * 3.0 + z1 * vy;
-    let util = x0 * 0.0 + x1 * vz;
-    // player one deviations: best of safe, risk with the better of c / d
-    let br_y = 5.0;
-    let br_one = fmax(0.0, z0 * 3.0 + z1 * br_y);
-    // player two deviations (minimises player one's payoff): L or R after risk
-    let br_two = -(x1 * if 3.0 < vy { 3.0 } else { vy });
-    assert!(info.player_utility(PlayerNum::One) == util, "C01.K.get_info.recall_tree: utility is the expected payoff");
-    assert!(info.player_regret(PlayerNum::One) == fmax(br_one - util, 0.0), "C01.K.get_info.recall_tree: player one's regret is the best unilateral gain");
-    assert!(info.player_regret(PlayerNum::Two) == fmax(br_two + util, 0.0), "C01.K.get_info.recall_tree: player two's regret is the best unilateral gain");
-    kani::cover!(z1 == 0.0 && x1 == 0.0, "profile that makes the later infoset unreachable");
+#[kani::unwind(5)]
+fn c14_import_slow_one_entry() {
+    let infos = infos(&[2]);
+    let singles: [(u8, u8); 0] = [];
+    let e: [(u8, [(u8, f64); 2]); 1] = [(any_name(), [(any_name(), any_weight()), (any_name(), any_weight())])];
+    let mut m = Model::new();
+    m.single_seen = true; // no single-action infoset in this game part
+    m.feed(e[0].0, e[0].1[0].0, e[0].1[0].1);
+    if !m.bad_infoset { m.feed(e[0].0, e[0].1[1].0, e[0].1[1].1); }
+    if e[0].0 == 7 { m.bad_infoset = true; } // infoset 7 does not exist in this game part
+    let res = Game::<u8, u8>::strat_into_box_slow(e, &infos, &singles);
+    m.check(res);
+    kani::cover!(m.all_ok(), "an accepted input is reachable");
 }
